@@ -211,6 +211,26 @@ def gen_scope_case(rng):
         ren["IL"] = "inner"
     return render({}), render(ren), "binders renamed: %s (import style %s)" % (ren, style)
 
+
+# names that look like the compiler's MONOMORPHISATION labels (<generic>_mono_<argument signature>_<result signature>) given to an unrelated
+# user function or closure next to an explicitly generic function called at that signature (response to seeded change C16c)
+def gen_mono_label_case(rng):
+    g = rng.choice(["ident", "pick", "pass"])
+    at = rng.choice(["num", "tup"])
+    label = "%s_mono_num_num" % g if at == "num" else "%s_mono_tup_num_num_tup_num_num" % g
+    names = [rng.choice(["helper", "scale", "lambda_0", g + "_mono", "zz"]), label]
+    form = rng.choice(["fn", "closure", "fn-after"])
+    k = rng.range(2, 9)
+    def prog(name):
+        gen = "fn %s(x: a) -> a { x }\n" % g
+        call = "%s(0.75)" % g if at == "num" else "%s((0.5, 0.25)).1" % g
+        if form == "fn":
+            return gen + "fn %s(x){ x * %d.0 }\nfn dsp(){\n  %s + %s(1.0)\n}\n" % (name, k, call, name)
+        if form == "fn-after":
+            return "fn %s(x){ x * %d.0 }\n" % (name, k) + gen + "fn dsp(){\n  %s(1.0) + %s\n}\n" % (name, call)
+        return gen + "fn dsp(){\n  let %s = |x| { x * %d.0 }\n  %s + %s(1.0)\n}\n" % (name, k, call, name)
+    return prog(names[0]), prog(names[1]), "helper named %s vs %s (%s, generic called at %s)" % (names[0], names[1], form, at)
+
 def summary(r):
     res = {}
     for be in ("vm", "wasm"):
@@ -300,6 +320,11 @@ def run(ck):
         reqs.append({"src": o_src, "n": 3, "state": False}); meta.append((sbase + si, "orig"))
         if r_src != o_src:
             reqs.append({"src": r_src, "n": 3, "state": False}); meta.append((sbase + si, "scope-rename"))
+    mbase = sbase + (120 if quick else 1200)
+    for mi in range(40 if quick else 400):
+        o_src, r_src, _d = gen_mono_label_case(rng.fork(("mono-label", mi)))
+        reqs.append({"src": o_src, "n": 3, "state": False}); meta.append((mbase + mi, "orig"))
+        reqs.append({"src": r_src, "n": 3, "state": False}); meta.append((mbase + mi, "mono-label-rename"))
     res = run_impl(iexe, reqs, timeout_per_batch=400)
     stats = {}
     def bump(k, n=1): stats[k] = stats.get(k, 0) + n
